@@ -174,6 +174,18 @@ func c04SchedPhase(s *c04State) {
 	if c.Tier == "thorough" {
 		nsmall, budget, nbig, samples = 500, 3000, 400, 300
 	}
+	// the fixed window configurations: every schedule, in both tiers
+	wex := 0
+	wprogs := c04WindowProgs()
+	for wi, p := range wprogs {
+		n, ex := c04DFS(s, fmt.Sprintf("w%d", wi), p, 4000)
+		c.Add("sched.window.schedules", n)
+		if ex {
+			wex++
+		}
+	}
+	c.Add("sched.window.programs", len(wprogs))
+	c.Add("sched.window.programs-exhausted", wex)
 	exhausted := 0
 	for pi := 0; pi < nsmall; pi++ {
 		p := c04ExpandStats(c04Small(c04GenProgRaw(c.Rng, pi), 2+pi%2, 1+(pi/2)%2))
